@@ -157,6 +157,22 @@ def _round(case: Dict[str, Any], path: str) -> CaseResult:
             res.viol("restart-entries", f"the restart entered {sorted(entered.items())}, expected {sorted(want_entered.items())}" + tag)
         if v2 != rv2:
             res.viol("restart-value", f"the restart returned {v2!r}, reference {rv2!r}" + tag)
+        setup_known = {s for s in M.sites if M.spec[s].get("setup") and (s in cached_sites or s in R2.executed or s in on_instance)}
+        if setup_known and not res.violations:
+            # a setup node whose result the restart took from the file (or computed) is set up for this instance:
+            # a plain call afterwards does not run it again
+            ex3 = sched.Exec("free")
+            try:
+                with ex3:
+                    _ = asyncio.run(b2.dag(*args)) if is_async else b2.dag(*args)
+                again3 = sorted({M.site_of_key.get(e["site"], e["site"]) for e in ex3.events if e["k"] == "ENTER"} & setup_known)
+                if again3:
+                    res.viol("setup-rerun-after-restart", f"a plain call after the restart executed the setup nodes {again3} again (their results were in the cache file / computed by the restart)" + tag)
+            except BaseException as e:  # noqa: BLE001
+                if isinstance(e, KeyboardInterrupt):
+                    raise
+                res.viol("call-after-restart-raised", f"a plain call after the restart raised {type(e).__name__}: {str(e)[:200]}" + tag)
+            res.cls("plain-call-after-restart")
         res.evals = 2
         nfn = len(M.sites)
         res.nontrivial = 0 < len(cached_sites) < nfn
